@@ -256,8 +256,8 @@ fn rlt(a, b) { return a < b }
 fn radd(a, b) { return a + b }
 """
 VALS = {
-    "int": ["7", "-3", "0"],
-    "float": ["2.5", "-0.5", "3.0"],
+    "int": ["7", "-3", "0", "2"],
+    "float": ["2.5", "-0.5", "3.0", "2.0"],
     "bool": ["true", "false"],
     "null": ["null"],
     "string": ['"s"', '"12"'],
@@ -284,6 +284,13 @@ def arg(v, launder):
     return dy(v) if launder else v
 
 
+def second(v, launder):
+    """a second value equal to v; for strings a freshly concatenated object with the same contents"""
+    if v.startswith('"'):
+        return f'dyns("" + {v})'
+    return arg(v, launder)
+
+
 def mk(position, D, T, detail, typed, ref):
     return {"position": position, "D": D, "T": T, "detail": detail, "typed": PRELUDE + typed + SHOW, "ref": PRELUDE + ref + SHOW}
 
@@ -305,6 +312,10 @@ def param_cases(D, T, v, launder, op, K=None):
         mk("typed-param", D, T, f"y{op}x:{src}:{v}",
            f"fn f(x: {D}, y: {D}) {{ let r = x {op} y\n return r }}\nlet r = f({K}, {a})\n",
            refb + f"let r = g({dy(K)}, {dy(v)})\n"),
+        # both parameters hold a value of the other type (for strings: equal contents, distinct objects)
+        mk("typed-param", D, T, f"x{op}y:both:{src}:{v}",
+           f"fn f(x: {D}, y: {D}) {{ let r = x {op} y\n return r }}\nlet r = f({a}, {second(v, launder)})\n",
+           refb + f"let r = g({dy(v)}, {second(v, True)})\n"),
         # no annotation at all: the parameter type is inferred from its use
         mk("inferred-param", D, T, f"a{op}K:{src}:{v}",
            f"fn f(a) {{ let r = a {op} {K}\n return r }}\nlet r = f({a})\n",
